@@ -114,6 +114,18 @@ def shape_error(nd: tg.Node, x: t.Any, path: str = '$', depth: int = 0) -> t.Opt
     if isinstance(nd, cg.TaggedNode):
         errs = [shape_error(vn, x, path, depth + 1) for vn in nd.variants]
         return None if any(e is None for e in errs) else f"{path}: instance of no variant ({errs[0]})"
+    if nd.kind == 'ndarray':
+        import numpy
+        from .npn import DTYPES
+        if not isinstance(x, numpy.ndarray):
+            return f"{path}: {type(x).__name__} is not a numpy array"
+        dt = getattr(nd, 'dt', None)
+        if dt is not None and dt != 'generic':
+            want = numpy.dtype(DTYPES[dt][0])
+            # (for text dtypes the width is incidental: compare the kind)
+            if (x.dtype.kind != want.kind) if want.kind in 'US' else (x.dtype != want):
+                return f"{path}: array of dtype {x.dtype} where numpy.dtype[numpy.{dt}] is declared"
+        return None
     return None
 
 
